@@ -216,3 +216,31 @@ def render_cli(name, files, init_args, tdir, render_args=("--force",), timeout=9
     if meta["ok"] and not os.path.isdir(os.path.join(pdir, "src")):
         meta = {"ok": False, "error": "render produced no src directory: " + log[-400:], "targets": {tdir: {"ok": False}}}
     return Project(name, {"cli": {"init": list(init_args), "render": list(render_args)}}, work, meta, time.time() - t0)
+
+
+def rerender_exported(parent, expdir, tdir, timeout=900):
+    """`naunet render --force` inside an exported project directory <parent.dir>/<expdir>/<tdir>
+    (re-render from its own reactions.naunet + naunet_config.toml)"""
+    pdir = os.path.join(parent.dir, expdir, tdir)
+    env = dict(os.environ, TQDM_DISABLE="1", PYTHONHASHSEED="0", NAUNET_VERIF="1")
+    env.pop("PYTHONPATH", None)
+    launcher = "import sys; from naunet.console import main; sys.exit(main())"
+    t0 = time.time()
+    meta = {"ok": True, "targets": {tdir: {"ok": True}}}
+    if not os.path.isdir(pdir):
+        meta = {"ok": False, "error": "export produced no directory", "targets": {}}
+    else:
+        for sub in ("src", "include"):
+            shutil.rmtree(os.path.join(pdir, sub), ignore_errors=True)
+        try:
+            r = subprocess.run([PY, "-c", launcher, "render", "--no-interaction", "--force"], capture_output=True, text=True, timeout=timeout, env=env, cwd=pdir)
+            if r.returncode != 0:
+                meta = {"ok": False, "error": f"render in the exported directory exited with {r.returncode}: {(r.stderr or r.stdout)[-600:]}", "targets": {tdir: {"ok": False}}}
+            elif not os.path.isdir(os.path.join(pdir, "src")):
+                meta = {"ok": False, "error": "re-render produced no sources: " + (r.stderr or r.stdout)[-400:], "targets": {tdir: {"ok": False}}}
+        except subprocess.TimeoutExpired:
+            meta = {"ok": False, "error": "re-render timed out", "targets": {}}
+        cfg = os.path.join(pdir, "naunet_config.toml")
+        if os.path.exists(cfg):
+            meta["config_text"] = open(cfg).read()
+    return Project(parent.name + "-exported", {}, os.path.join(parent.dir, expdir), meta, time.time() - t0)
